@@ -136,11 +136,13 @@ def spec_of(items, keep_alive=True, ignore_length=False):
 def singles():
     out = []
     for st in A.STYLES:
+        if st == 'biglf':
+            continue        # 4.6 KB header block: exercised by the 'light' job below
         for fr in ('cl', 'chunked_ext'):
             out.append((st, fr, 'text'))
     for fr in A.FRAMINGS:
         for b in A.BODIES:
-            if fr in ('cl0', 'n204', 'n304', 'n304cl', 'headcl', 'headte') and b != 'text':
+            if fr in ('cl0', 'n204', 'n304', 'n304cl', 'headcl', 'headte', 'n205chunked') and b != 'text':
                 continue
             out.append(('canon', fr, b))
     out.append(('lf', 'chunked_lf', 'text'))
@@ -154,7 +156,8 @@ def singles():
 
 
 def sequences(tier):
-    first = [('canon', 'cl', 'text'), ('canon', 'chunked_ext', 'binary'),
+    first = [('canon', 'n205chunked', 'text'), ('canon', 'n205cl', 'text'),
+             ('canon', 'cl', 'text'), ('canon', 'chunked_ext', 'binary'),
              ('lf', 'cl0', 'text'), ('canon', 'n204', 'text'), ('canon', 'n304', 'text'),
              ('fold', 'chunked1', 'gzip'), ('canon', 'te_cl', 'text'),
              ('canon', 'chunked_lf', 'text')]
@@ -178,6 +181,13 @@ def jobs(tier, seed):
         js.append(dict(kind='cuts', items=[it], ka=False, il=True, tier=tier))
     for seq in sequences(tier):
         js.append(dict(kind='cuts', items=seq, ka=True, il=False, tier=tier))
+    for b in ('text', 'gzip'):
+        js.append(dict(kind='overrun-first', items=[('canon', 'overrun', b),
+                                                    ('canon', 'cl', 'text')],
+                       ka=True, il=False, tier=tier))
+    js.append(dict(kind='light', items=[('biglf', 'cl', 'text')], ka=True, il=False, tier=tier))
+    js.append(dict(kind='light', items=[('biglf', 'chunked_ext', 'text'), ('canon', 'cl', 'text')],
+                   ka=True, il=False, tier=tier))
     if tier != 'quick':
         for it in singles():
             js.append(dict(kind='search', items=[it], ka=True, il=False, tier=tier))
@@ -209,7 +219,38 @@ def run_job(job):
                                      classify(viol)),
             spec=spec_used, plan=plan, kind=job['kind'], streams_trunc=None))
 
-    if job['kind'] == 'cuts':
+    if job['kind'] == 'overrun-first':
+        m0 = A.make(*[tuple(i) for i in job['items']][0])
+        body_end = m0['expect']['msg_len']
+        for cuts in [[]] + [[c] for c in range(1, body_end - 1)]:
+            plan = dict(cuts=cuts)
+            obs, _ = httpharn.run_http(spec, plan)
+            res['evaluations'] += 1
+            res['transitions'] += obs['npieces']
+            ok = outcome_key(obs)
+            res['outcomes'][ok] = res['outcomes'].get(ok, 0) + 1
+            res['states'].add(h64((tag, 'of', tuple(cuts), ok)))
+            v = judge(spec, obs, streams)
+            if v and len(res['violations']) < 2:
+                record(v, plan, obs, spec)
+        res['distinct'].add(h64((tag, 'overrun-first')))
+        res['samples'].append(dict(stream=tag, bytes=total, mode='surplus then next exchange'))
+    elif job['kind'] == 'light':
+        for cuts in ([], list(range(1, total)), list(range(1, total, 7)),
+                     [total // 3, 2 * total // 3], [4096], [4095, 4097]):
+            plan = dict(cuts=cuts)
+            obs, _ = httpharn.run_http(spec, plan)
+            res['evaluations'] += 1
+            res['transitions'] += obs['npieces']
+            ok = outcome_key(obs)
+            res['outcomes'][ok] = res['outcomes'].get(ok, 0) + 1
+            res['states'].add(h64((tag, 'light', len(cuts), ok)))
+            v = judge(spec, obs, streams)
+            if v and len(res['violations']) < 2:
+                record(v, plan, obs, spec)
+        res['distinct'].add(h64((tag, 'light')))
+        res['samples'].append(dict(stream=tag, bytes=total, mode='light (6 plans)'))
+    elif job['kind'] == 'cuts':
         quick = job['tier'] == 'quick'
         maxc = 2 if total <= (110 if quick else 260) else 1
         for eofw in (False, True):
